@@ -209,6 +209,16 @@ class C08(StreamProp):
                 out.append(gen_streams.reader_case('t%d' % k, role, [b''.join(frames)], 3)); k += 1
             # close reason
             out.append(gen_streams.reader_case('t%d' % k, 'c', [gen_e2.peer_frame('c', 8, gen_e2.close_payload(1000, s[:100]))], 2)); k += 1
+        # a multi-byte character cut by fragments that are valid (or empty) on their own
+        for ch in ('é', '€', '\U0001F600'):
+            b = ch.encode()
+            for cut in range(1, len(b)):
+                for mid in ([b'abc'], [b''], [b'ab', b'c'], ['ü'.encode()], [b'a', b'']):
+                    for tail in (b'', b'z'):
+                        parts = [b'ok' + b[:cut]] + mid + [b[cut:] + tail]
+                        role = 'c' if k % 2 else 's'
+                        frames = [gen_e2.peer_frame(role, 1 if i == 0 else 0, p_, fin=(i == len(parts) - 1)) for i, p_ in enumerate(parts)]
+                        out.append(gen_streams.reader_case('t%d' % k, role, [b''.join(frames)], 3)); k += 1
         return out
     def monitor(self, case_line, trace, mline):
         if case_line.startswith('U8 '):
@@ -329,6 +339,14 @@ class C09(E2Prop):
                     out.append(ws.scase_line('m%d' % k, role, [msg_op(kind, payload), 'f'], [], [], [], seed=rng.randint(0, 2**32 - 1))); k += 1
         for i in range(800 if tier == 'quick' else 8000):
             out.append(gen_e2.random_history(rng, 'h%d' % i, long=(i % 4 == 0)))
+        # automatic replies to peer control frames at and around the 125-byte limit
+        for role in 'sc':
+            for n in (0, 1, 124, 125, 126, 127, 200):
+                pf = lambda op, p: gen_e2.peer_frame(role, op, p)
+                out.append(ws.scase_line('a%d' % k, role, ['r', 'r', 'f', 'f'], ['d:' + ws.hx(pf(9, b'p' * n))], [], [])); k += 1
+                if n >= 2:
+                    out.append(ws.scase_line('a%d' % k, role, ['r', 'r', 'f', 'f'], ['d:' + ws.hx(pf(8, gen_e2.close_payload(1000, b'r' * (n - 2))))], [], [])); k += 1
+                    out.append(ws.scase_line('a%d' % k, role, ['r', 'r', 'f', 'f'], ['d:' + ws.hx(pf(8, gen_e2.close_payload(1005, b'r' * (n - 2))))], [], [])); k += 1
         return reid(self.corpus() + out)
     def monitor(self, case_line, trace, mline):
         case, ots = self.parse(case_line, trace)
@@ -372,6 +390,18 @@ class C10(E2Prop):
             if rng.random() < 0.1: wr.append(rng.choice(['a:0', 'e:other', 'e:reset']))
             fl = [rng.choice(['ok', 'e:wb']) for _ in range(rng.randint(0, 3))]
             out.append(ws.scase_line('q%d' % k, role, ops, [], wr, fl, wbs=rng.choice([0, 1, 10, 600]), seed=rng.randint(0, 2**32 - 1))); k += 1
+        for i in range(300 if tier == 'quick' else 4000):
+            role = 'cs'[i % 2]
+            sizes = [rng.choice([0, 1, 5, 20]) for _ in range(rng.randint(2, 6))]
+            ops = []
+            for n_ in sizes:
+                ops.append('wb:' + ws.hx(bytes(range(n_))))
+            ops += ['f', 'f', 'f', 'f']
+            largest = max(gen_e2.frame_size(role, n_) for n_ in sizes)
+            total = sum(gen_e2.frame_size(role, n_) for n_ in sizes)
+            mx = rng.choice([largest, largest + 1, largest + 5, total - 1, total])
+            wr = ['e:wb'] * rng.randint(1, len(sizes) + 1)
+            out.append(ws.scase_line('t%d' % k, role, ops, [], wr, [], wbs=rng.choice([0, 1]), max_=max(mx, 2), seed=rng.randint(0, 2**32 - 1))); k += 1
         return reid(self.corpus() + out)
     def monitor(self, case_line, trace, mline):
         case, ots = self.parse(case_line, trace)
